@@ -42,6 +42,40 @@ fn main() {
     if args[0] == "selftest" {
         std::process::exit(tfcheck::selftest::run(&verif_dir(), args.iter().any(|a| a == "--quick")));
     }
+    if args[0] == "corpus" {
+        // tfcheck corpus <ID> <SUBCHECK> <DIR> <N>: writes N small valid inputs (choice words as
+        // little-endian bytes) as a starting corpus for the libFuzzer target of that sub-check
+        let (id, scn, dir, n) = (&args[1], &args[2], &args[3], args[4].parse::<u64>().unwrap());
+        let props = tfcheck::all_properties();
+        let prop = props.iter().find(|p| p.id == id.as_str()).expect("unknown property");
+        let sc = prop.subchecks.iter().find(|s| s.name == scn.as_str()).expect("unknown sub-check");
+        let _ = std::fs::create_dir_all(dir);
+        let (words, items) = match sc.kind {
+            Kind::Generated { words, max_items } => (words, max_items.min(6)),
+            Kind::Enumerated { .. } => (1, 0),
+        };
+        let mut st = 0x5EED_u64;
+        let mut next = || {
+            st = st.wrapping_add(0x9E3779B97F4A7C15);
+            let mut z = st;
+            z = (z ^ (z >> 30)).wrapping_mul(0xBF58476D1CE4E5B9);
+            z = (z ^ (z >> 27)).wrapping_mul(0x94D049BB133111EB);
+            z ^ (z >> 31)
+        };
+        for k in 0..n {
+            let mut bytes = Vec::new();
+            if scn == "json_bytes" {
+                let texts = ["{\"hi\":1.0,\"lo\":0.0}", "[1.5,1e-20]", "{\"lo\":-0.0,\"hi\":-2.5e300}", "{\"hi\":1.0,\"lo\":1.0}", "[1e308,1e291]", "{\"hi\":0.1,\"lo\":5e-18,\"x\":1}"];
+                bytes.extend_from_slice(texts[(k as usize) % texts.len()].as_bytes());
+            } else {
+                for _ in 0..(words + items * 4) {
+                    bytes.extend_from_slice(&next().to_le_bytes());
+                }
+            }
+            std::fs::write(format!("{}/seed_{:03}", dir, k), bytes).unwrap();
+        }
+        return;
+    }
     if args[0] == "list" {
         for p in tfcheck::all_properties() {
             println!("{}: {}", p.id, p.subchecks.iter().map(|s| s.name).collect::<Vec<_>>().join(" "));
